@@ -286,6 +286,11 @@ func alphaCmd(args []string) error {
 			evl := pointEvent(q16, al, int(linear.RGB{R: 0.25, G: 0.5, B: 0.75}.ToLinearRGBA64(al).A), 0)
 			evl["name"] = "linear.RGB.ToLinearRGBA64 alpha"
 			sink.put(evl)
+			// every encode-side writer stores what the plain quantiser makes of this alpha - for every
+			// float32, the ones outside [0,1], the infinities and NaN included
+			a8, a16 := int(linear.NormalisedTo8Bit(al)), int(linear.NormalisedTo16Bit(al))
+			sink.put(map[string]interface{}{"kind": "agree", "what": fmt.Sprintf("%s alpha with float32 bits %08x: ToNRGBA / ToRGBA / ToRGBA64 / ToLinearRGBA64 vs NormalisedTo8Bit / 16Bit", sp.name, math.Float32bits(al)),
+				"a": []int{n8, int(lr.toRGBA(sp.name, al).A), int(c.A), int(linear.RGB{R: 0.25, G: 0.5, B: 0.75}.ToLinearRGBA64(al).A)}, "b": []int{a8, a8, a16, a16}})
 		}
 	}
 	_ = numlog.Limbs
